@@ -165,6 +165,17 @@ def history_config(r, hooks=(), big=False):
                 restarts.append([b, s])
             if r.random() < p_dt:
                 dtnew.append([b, s, r.choice([0.5, 0.8, 1.0, 1.25, 2.0, 0.8, 1.25, 2.0, 0.5, r.choice([0.1, 0.25, 4.0, 10.0])])])
+    # the scripted factors must not drive the step size below the resolution of the time axis (t + dt == t is not a time step):
+    # walking through the script in block order, a factor that would take the running product below 1024 ulp(max|t|) becomes 1.0
+    import math
+
+    floor_dt = 1024 * math.ulp(max(abs(t0), abs(Tend), 1.0))
+    cur = dt
+    for e in dtnew:
+        if cur * e[2] < floor_dt:
+            e[2] = 1.0
+        else:
+            cur *= e[2]
     cc = []
     if r.random() < 0.7:
         cc.append(
